@@ -21,6 +21,8 @@ static unsigned char oct_before[4];
 json_t *vf_parse(unsigned call_no, const char *buf, size_t len, size_t flags) { return NULL; }
 
 static jwk_item_t key, key2;
+static const jwk_item_t *prior_key;
+static jwt_alg_t prior_alg;
 static unsigned char octkey[4];
 
 /* ------------------------------------------------------------------ dump monitor */
@@ -191,12 +193,30 @@ int main(void)
 		__CPROVER_assume(a <= JWT_ALG_INVAL);
 		cfg_alg = (jwt_alg_t)a;
 	}
+#if defined(PROP_C02) || defined(PROP_C03)
+	/* setkey as one step from an arbitrary earlier pin */
+	{
+		unsigned pa = nondet_uint();
+		__CPROVER_assume(pa < JWT_ALG_INVAL);
+		prior_alg = (jwt_alg_t)pa;
+		prior_key = nondet_bool() ? &key2 : NULL;
+		b->c.alg = prior_alg;
+		b->c.key = prior_key;
+	}
+#endif
 	setkey_ret = jwt_builder_setkey(b, cfg_alg, have_key ? &key : NULL);
-#ifdef PROP_C02
+#if defined(PROP_C02) || defined(PROP_C03)
 	PROP((setkey_ret == 0) == (ref_setkey_admits(cfg_alg, have_key, key.alg) && (!have_key || key.is_private_key)),
 	     "C02: builder setkey admits exactly the documented table, private keys only");
+	PROP(setkey_ret == 0 || (b->c.key == prior_key && b->c.alg == prior_alg),
+	     "C02/C03: a refused setkey leaves the previously given key and algorithm in place");
+	PROP(setkey_ret != 0 || (b->c.key == (have_key ? &key : NULL) && b->c.alg == cfg_alg),
+	     "C02: an admitted setkey stores exactly what was given");
+	REACH(setkey_ret != 0 && prior_key != NULL, "setkey refused on a builder that already holds a key");
 #endif
 	if (setkey_ret) {
+		b->c.key = NULL;
+		b->c.alg = JWT_ALG_NONE;
 #ifdef PROP_C14
 		PROP(jwt_builder_error(b) && jwt_builder_error_msg(b)[0] != '\0', "C14: a refused setkey is reported with a message");
 #endif
